@@ -39,10 +39,13 @@ struct Slot {
 pub enum Mode {
     Gated,
     Free,
+    /// points are ignored (used while the harness cleans up after a run)
+    Off,
 }
 
 struct Inner {
     mode: Mode,
+    jitter: u64, // free mode: 0 = none, otherwise state of a xorshift generator
     seq: u64,
     roles: HashMap<ThreadId, String>,
     notes: HashMap<String, Vec<Value>>,
@@ -80,6 +83,7 @@ impl Inner {
     fn new() -> Self {
         Inner {
             mode: Mode::Free,
+            jitter: 0,
             seq: 0,
             roles: HashMap::new(),
             notes: HashMap::new(),
@@ -124,6 +128,12 @@ impl Sched {
         let mut g = self.inner.lock().unwrap();
         *g = Inner::new();
         g.mode = mode;
+    }
+
+    /// free mode: after each event the thread yields / spins for a pseudo-random short time
+    pub fn set_jitter(&self, seed: u64) {
+        let mut g = self.inner.lock().unwrap();
+        g.jitter = seed | 1;
     }
 
     pub fn set_mode(&self, mode: Mode) {
@@ -182,6 +192,9 @@ impl Sched {
     pub fn hook(&self, kind: &str, store: usize, obj: usize, data: Option<String>, n: i64) {
         let tid = std::thread::current().id();
         let mut g = self.inner.lock().unwrap();
+        if g.mode == Mode::Off {
+            return;
+        }
         // store prefix
         let prefix = if store != 0 {
             if let Some(p) = g.stores.get(&store) {
@@ -250,7 +263,9 @@ impl Sched {
                 (Class::Gate, kind, json!({"ch": ch, "item": item}))
             }
             "send.end" => (Class::Gate, kind, json!({"ch": ch, "ok": n})),
-            "loop.wait" | "clear.begin" | "ntf.snap" | "stop.join" => (Class::Gate, kind, json!(0)),
+            "loop.wait" | "clear.begin" | "ntf.snap" | "stop.join" | "stop.pool" => {
+                (Class::Gate, kind, json!(0))
+            }
             "loop.end" => (Class::Final, kind, json!(0)),
             "loop.recv" => {
                 let item = match parsed {
@@ -260,11 +275,8 @@ impl Sched {
                 };
                 (Class::Note, "recv", json!({"k": "recv", "n": item, "st": []}))
             }
-            "loop.wrote" => (
-                Class::Note,
-                "wrote",
-                json!({"k": "wrote", "n": 0, "st": parsed.unwrap_or(json!("?"))}),
-            ),
+            "loop.wrote" => (Class::Gate, kind, json!({"st": parsed.unwrap_or(json!("?"))})),
+            "eff.spawn" => (Class::Gate, kind, json!({"n": n})),
             "pool.took" => (Class::Note, "took", json!({"k": "took", "n": n, "st": []})),
             "task.submit" => {
                 let c = g.n_tasks.entry(prefix.clone()).or_insert(0);
@@ -282,7 +294,9 @@ impl Sched {
                 let lt = g.task_ids.get(&obj).cloned().unwrap_or(-1);
                 (Class::Final, kind, json!({"tid": lt, "panicked": n}))
             }
-            "ch.txlock" | "ch.join" | "chloop.wait" => (Class::Gate, kind, json!({"ch": ch})),
+            "ch.txlock" | "ch.join" | "chloop.wait" | "chfwd.begin" => {
+                (Class::Gate, kind, json!({"ch": ch}))
+            }
             "chloop.exit" => (Class::Final, kind, json!({"ch": ch})),
             "chloop.recv" => (Class::Note, "chrecv", json!({"k": "chrecv", "n": n, "st": []})),
             "iter.end" => {
@@ -301,6 +315,9 @@ impl Sched {
     pub fn point(&self, class: Class, ev: &str, d: Value) -> String {
         let tid = std::thread::current().id();
         let mut g = self.inner.lock().unwrap();
+        if g.mode == Mode::Off {
+            return String::new();
+        }
         let role = match g.roles.get(&tid) {
             Some(r) => r.clone(),
             None => {
@@ -357,9 +374,29 @@ impl Sched {
         if is_final {
             return String::new();
         }
+        if g.mode == Mode::Free && g.jitter != 0 {
+            let mut x = g.jitter;
+            x ^= x << 13;
+            x ^= x >> 7;
+            x ^= x << 17;
+            g.jitter = x;
+            drop(g);
+            match x % 8 {
+                0 | 1 => std::thread::yield_now(),
+                2 => std::thread::sleep(Duration::from_micros(x % 150)),
+                3 => {
+                    let t = Instant::now();
+                    while t.elapsed() < Duration::from_micros(x % 30) {
+                        std::hint::spin_loop();
+                    }
+                }
+                _ => {}
+            }
+            return String::new();
+        }
         // park
         loop {
-            if g.mode == Mode::Free {
+            if g.mode != Mode::Gated {
                 break;
             }
             if g.slots.get(&role).map(|s| s.released).unwrap_or(true) {
